@@ -706,6 +706,32 @@ Section Monitors2.
         | FromOrigin _ | Failed => if allowed then VBad 4 else (if failed then VOk else VNa)
         | _ => VNa
         end
+    | Some s, [] =>
+        (* the validation went on in the background (the stale response was handed out under stale-while-revalidate): a failure
+           that stale-if-error covers — clearly inside the window, a second to spare — is not used: it does not take the
+           stored response's place either *)
+        match bg_calls o with
+        | [cl] =>
+            let '(_, _, _, b, _) := cl in
+            match reply_of_call cl with
+            | RResp rep =>
+                let failed := (p_status rep =? 500) || (p_status rep =? 502) || (p_status rep =? 503) || (p_status rep =? 504) in
+                let cc := spec_cc (sv_hdr s) in
+                let rcc := spec_cc (q_hdr q) in
+                let blocked := sd_has (bs "must-revalidate") cc || sv_no_cache_unqualified cc || sd_has (bs "no-cache") rcc ||
+                               match sd_duration (bs "max-age") rcc with Some m => m <=? sv_age s (x_t0 o) | None => false end in
+                let well_inside w := match w with
+                                     | Some n => sat_add (sv_age s b) second <? sat_add (sv_life s) n
+                                     | None => false end in
+                let covered := failed && negb blocked && (sv_life s <=? sv_age s (x_t0 o)) &&
+                               (well_inside (sd_duration (bs "stale-if-error") cc) || well_inside (sd_duration (bs "stale-if-error") rcc)) in
+                if covered then
+                  (if existsb (fun ke => e_status (snd ke) =? p_status rep) (set_entries (x_bg_events o)) then VBad 6 else VOk)
+                else VNa
+            | RErr => VNa
+            end
+        | _ => VNa
+        end
     | _, _ => VNa
     end.
 
